@@ -15,14 +15,14 @@ Record case := {
 Definition wop_eqb (a b : wop) : bool :=
   match a, b with
   | WCommit x, WCommit y => Z.eqb x y
-  | WCompact, WCompact | WClose, WClose => true
+  | WCompact, WCompact | WClose, WClose | WOffline, WOffline => true
   | _, _ => false
   end.
 
 Definition hres_eqb (a b : hres) : bool :=
   match a, b with
   | ROpenOk, ROpenOk | ROpenRefused, ROpenRefused | RAlreadyOpen, RAlreadyOpen
-  | RClosed, RClosed | RNoHandle, RNoHandle => true
+  | RClosed, RClosed | RNoHandle, RNoHandle | ROffline, ROffline | ROfflineRefused, ROfflineRefused => true
   | RWrote x, RWrote y => wop_eqb x y
   | _, _ => false
   end.
